@@ -1,22 +1,22 @@
 (* Property C20 — commands from the CLI are executed at most once and on the named target.
-   Property theorems only; each is closed by [exact] of a lemma of C20/Lemmas.v. *)
+   Each theorem is closed by [exact] of a lemma of C20/Lemmas.v.
+
+   PART A (the substance proved in Coq): the delete-before-execute command workers —
+   an invariant over ALL event lists (induction), the meaning of the executable law, and
+   the link between the schedules the correspondence runs and those event lists.
+   PART B (model conformance statements): the CLI, the end-to-end composition and the
+   informer filter are straight-line code; their models are transliterations and the
+   statements below merely unfold them (they fix WHAT the model says, so that the laws and
+   the differential check have a stated reference).  For those clauses the evidence is the
+   differential check of the real code against the model plus laws 101 / 103 / 104 on the
+   real results — not these statements. *)
 From stdpp Require Import gmap.
 From Coq Require Import ZArith List.
 From V Require Import C20.Model C20.Laws C20.Lemmas.
 Import ListNotations.
 Open Scope Z_scope.
 
-(* for every verb, namespace, target name and UID: exactly one Command is created; its
-   TargetObject is the controller reference of exactly the object the server returned
-   for the named target, its only owner reference is that same reference, the action
-   is the verb's, and the request a controller derives from it names that target *)
-Theorem C20_cli_command_shape : forall v ns t,
-  exists c, cli_create v ns t = [c] /\
-    c_target c = mkRef (verb_kind v) (t_name t) (t_uid t) true /\
-    c_owners c = [c_target c] /\ c_action c = verb_action v /\ c_ns c = cmd_ns v ns /\
-    req_of c = (cmd_ns v ns, t_name t, verb_action v).
-Proof. exact cli_command_shape. Qed.
-Print Assumptions C20_cli_command_shape.
+(* ================= PART A: the command workers ================= *)
 
 (* for every command, whether or not it (still) exists, every retry budget (maxRequeueNum,
    -1 = retry for ever) and EVERY list of events — any number of deliveries (object copies:
@@ -37,7 +37,7 @@ Theorem C20_at_most_once : forall mx c b evs, let s := crun mx c b evs in
 Proof. exact at_most_once. Qed.
 Print Assumptions C20_at_most_once.
 
-(* on an error answer the delivery is retried (same object, one more failure) or, with the
+(* STEP (one transition from any state): on an error answer the delivery is retried (same object, one more failure) or, with the
    budget exhausted, dropped; either way it enqueues nothing: a dropped command triggers nothing *)
 Theorem C20_error_never_executes : forall mx c s w n o,
   o = DErr \/ o = DErrApplied -> wget s w = WGot n ->
@@ -51,6 +51,63 @@ Print Assumptions C20_error_never_executes.
 Theorem C20_unlimited_retries_never_drop : forall c b evs, drops (crun (-1) c b evs) = 0%nat.
 Proof. exact no_drop_unlimited. Qed.
 Print Assumptions C20_unlimited_retries_never_drop.
+
+(* the executable law 102 accepts every reachable state of the model (with its quiescence
+   clause when all deliveries have finished) ... *)
+Theorem C20_law_amo_accepts_model : forall mx c b evs (quiet : bool), let s := crun mx c b evs in
+  (quiet = true -> quiescent s) ->
+  law_amo mx c b (log s) (seen s) (enq s) (present s) (retries s) quiet = true.
+Proof. exact law_amo_holds. Qed.
+Print Assumptions C20_law_amo_accepts_model.
+
+(* ... and MEANS the property (Prop-level soundness): whenever it answers true on observed
+   Delete answers, per-call "requests enqueued so far", requests and final presence, then
+   the answers respect the Delete oracle, at every Delete call no more requests had been
+   triggered than Deletes had succeeded, at most one request exists, it names the Command's
+   target and action, the Command is gone, an absent Command triggered nothing *)
+Theorem C20_law_amo_sound : forall mx c b outs sn enq p rt quiet,
+  law_amo mx c b outs sn enq p rt quiet = true ->
+  oracle_ok b outs = true /\
+  (forall k n, nth_error sn k = Some n -> (n <= count_out DOk (firstn k outs))%nat) /\
+  (length enq <= 1)%nat /\ (length enq <= count_out DOk outs)%nat /\
+  Forall (fun r => r = req_of c) enq /\
+  (enq <> [] -> p = false) /\ (b = false -> enq = []) /\
+  (quiet = true -> length enq = count_out DOk outs).
+Proof. exact law_amo_sound. Qed.
+Print Assumptions C20_law_amo_sound.
+
+(* what the correspondence runs (selector 2: a drained batch of deliveries, then a relist,
+   one worker, FIFO) ends in a state of [crun]: C20_at_most_once speaks about exactly the
+   states the extracted model prints and the real controllers are compared with *)
+Theorem C20_sequential_schedules_are_histories : forall mx c b n1 n2 sched s1 r1 s2 r2,
+  seq_phase mx c n1 sched (init b) = Some (s1, r1) -> seq_phase mx c n2 r1 s1 = Some (s2, r2) ->
+  exists evs, s2 = crun mx c b evs.
+Proof. exact seq_two_phases_reach. Qed.
+Print Assumptions C20_sequential_schedules_are_histories.
+
+(* ================= PART B: model conformance statements ================= *)
+
+(* CLI: for every verb, namespace, target name and UID: exactly one Command is created; its
+   TargetObject is the controller reference of exactly the object the server returned
+   for the named target, its only owner reference is that same reference, the action
+   is the verb's, and the request a controller derives from it names that target *)
+Theorem C20_cli_command_shape : forall v ns t,
+  exists c, cli_create v ns t = [c] /\
+    c_target c = mkRef (verb_kind v) (t_name t) (t_uid t) true /\
+    c_owners c = [c_target c] /\ c_action c = verb_action v /\ c_ns c = cmd_ns v ns /\
+    req_of c = (cmd_ns v ns, t_name t, verb_action v).
+Proof. exact cli_command_shape. Qed.
+Print Assumptions C20_cli_command_shape.
+
+(* the two halves meet: a Command the CLI writes passes the filter of exactly the controller
+   of its verb, and the request derived from it names the GET's object and the verb's action *)
+Theorem C20_cli_commands_are_accepted : forall v ns t c,
+  cli_create v ns t = [c] ->
+  accepts (verb_kind v) (dcmd_of c) = true /\
+  (forall ctrl, ctrl <> verb_kind v -> ctrl = 1 \/ ctrl = 2 -> accepts ctrl (dcmd_of c) = false) /\
+  dreq (verb_kind v) (dcmd_of c) = (if verb_kind v =? 1 then cmd_ns v ns else 0, t_name t, verb_action v).
+Proof. exact cli_commands_are_accepted. Qed.
+Print Assumptions C20_cli_commands_are_accepted.
 
 (* which Commands a controller takes (the filter of its Command informer handler): for
    every list of delivered Commands, one whose TargetObject is not a reference to a Job
@@ -87,34 +144,29 @@ Theorem C20_cli_at_most_one_command : forall i, let r := cli_invoke i in
 Proof. exact cli_at_most_one_command. Qed.
 Print Assumptions C20_cli_at_most_one_command.
 
-(* end to end, for every list of invocations (same or different targets and actions, earlier
-   Commands still pending): every invocation that reported success has its own request
-   executed, and there is at most one request per invocation *)
-Theorem C20_e2e_success_is_executed : forall invs i,
+(* end-to-end composition AS DEFINED IN THE MODEL ([e2e_requests] = the requests of the Commands
+   left behind; that the controllers execute each of them at most once is C20_at_most_once,
+   that they DO execute them is only observed by the harness, selector 3): every invocation that
+   reported success contributes its own request, and there is at most one request per invocation *)
+Theorem C20_model_e2e_success_has_its_request : forall invs i,
   In i invs -> r_ok (cli_invoke i) = true ->
   exists c, cli_create (i_verb i) (i_ns i) (i_target i) = [c] /\ In (ctl_req c) (e2e_requests invs).
 Proof. exact e2e_success_is_executed. Qed.
-Print Assumptions C20_e2e_success_is_executed.
+Print Assumptions C20_model_e2e_success_has_its_request.
 
-Theorem C20_e2e_at_most_one_per_invocation : forall invs,
+Theorem C20_model_e2e_at_most_one_request_per_invocation : forall invs,
   (length (e2e_requests invs) <= length invs)%nat.
 Proof. exact e2e_at_most_one_per_invocation. Qed.
-Print Assumptions C20_e2e_at_most_one_per_invocation.
+Print Assumptions C20_model_e2e_at_most_one_request_per_invocation.
 
 Theorem C20_law_cli_invocation_accepts_model : forall i, let r := cli_invoke i in
   law_cli_invocation i (r_ok r) (r_gets r) (r_posts r) (r_new r) = true.
 Proof. exact law_cli_invocation_holds. Qed.
 Print Assumptions C20_law_cli_invocation_accepts_model.
 
-(* the extracted law checkers accept the model *)
 Theorem C20_law_cli_accepts_model : forall v ns t, law_cli v ns t (cli_create v ns t) = true.
 Proof. exact law_cli_holds. Qed.
 Print Assumptions C20_law_cli_accepts_model.
-
-Theorem C20_law_amo_accepts_model : forall mx c b evs, let s := crun mx c b evs in
-  law_amo mx c b (log s) (seen s) (enq s) (present s) (retries s) false = true \/ mx = -1 /\ drops s <> 0%nat.
-Proof. exact law_amo_holds. Qed.
-Print Assumptions C20_law_amo_accepts_model.
 
 Example C20_nonvacuous :
   let s := crun (-1) ex_cmd true [CDeliver 0; CDeliver 1; CDelete 0 DErr; CDelete 1 DOk;
